@@ -109,6 +109,10 @@ type exec struct {
 	pos      int // index into Prefix
 	wg       sync.WaitGroup
 	diverged string
+	// shims
+	waiters   map[any][]*thread
+	syncOps   int64
+	lockDepth int
 }
 
 var cur *exec // the active execution (nil outside Run)
@@ -618,4 +622,74 @@ func ThreadID() int {
 		return 0
 	}
 	return e.cur.id
+}
+
+// ---- primitives for the sync / sync/atomic shims (vrt/vsync, vrt/vatomic) ----
+
+// SyncOp records that the running thread performed a synchronisation operation (lock, unlock,
+// atomic, pool, once).  depth is the change in the number of shim locks it holds.
+func SyncOp(depth int) {
+	e := cur
+	if e == nil {
+		return
+	}
+	e.mu.Lock()
+	e.syncOps++
+	e.lockDepth += depth
+	e.mu.Unlock()
+}
+
+// SyncState returns the number of synchronisation operations performed so far in this
+// execution and the number of shim locks currently held (all threads).
+func SyncState() (ops int64, held int) {
+	e := cur
+	if e == nil {
+		return 0, 0
+	}
+	e.mu.Lock()
+	defer e.mu.Unlock()
+	return e.syncOps, e.lockDepth
+}
+
+// Block parks the running thread until another thread calls Wake(key).  The caller re-checks
+// its condition afterwards (only one logical thread runs at a time, so the check-then-block of
+// a shim is atomic).
+func Block(key any, on string) {
+	e := cur
+	if e == nil {
+		panic("vrt.Block outside an execution")
+	}
+	e.mu.Lock()
+	if e.dead {
+		e.mu.Unlock()
+		panic(&Abort{e.reason})
+	}
+	me := e.cur
+	if e.waiters == nil {
+		e.waiters = map[any][]*thread{}
+	}
+	e.waiters[key] = append(e.waiters[key], me)
+	e.blockLocked(me, on)
+}
+
+// Wake makes every thread blocked on key runnable again (n <= 0) or the first n of them.
+func Wake(key any, n int) {
+	e := cur
+	if e == nil {
+		return
+	}
+	e.mu.Lock()
+	ws := e.waiters[key]
+	if n <= 0 || n > len(ws) {
+		n = len(ws)
+	}
+	for _, t := range ws[:n] {
+		t.state = tRunnable
+	}
+	if n == len(ws) {
+		delete(e.waiters, key)
+	} else {
+		e.waiters[key] = ws[n:]
+	}
+	e.mu.Unlock()
 }
